@@ -205,28 +205,44 @@ theorem eval_proj (a : Expr) (i : Nat) : eval (n + 1) P rt env (.proj a i) σ st
   | error e => rfl
   | ok r => obtain ⟨v, σ', st'⟩ := r; cases v <;> rfl
 
+/-- `self` of a function instance starts as the zero value of its declared shape -/
+def initSelf (child : SNode) (sh : Option Shape) : SNode :=
+  match child.selfv, sh with
+  | none, some sh => child.setSelf (zeroOf sh)
+  | _, _ => child
+
+/-- … and is the previous return value afterwards -/
+def finishSelf (child : SNode) (sh : Option Shape) (v : Val) : SNode :=
+  if sh.isSome then child.setSelf v else child
+
 /-- what a call does once its arguments are evaluated: independent of the caller's environment -/
 def callRest (n : Nat) (f : String) (site : Nat) (r : List Val × Store × SNode) : Res (Val × Store × SNode) :=
   match findFn P.fns f with
   | none => .error (.nofn f)
   | some d =>
     if d.params.length != r.1.length then .error (.type "argument count") else
-    let child := r.2.2.childAt site
-    let child := match child.selfv, d.selfShape with
-      | none, some sh => child.setSelf (zeroOf sh)
-      | _, _ => child
-    match eval n P rt (bindAll (globalEnv P) r.2.1 d.params r.1).1 d.body (bindAll (globalEnv P) r.2.1 d.params r.1).2 child with
-    | .error e => .error e
-    | .ok (v, σ, child) =>
-      let child := if d.selfShape.isSome then child.setSelf v else child
-      .ok (v, σ, r.2.2.setCell site (.child child))
+    andThen (eval n P rt (bindAll (globalEnv P) r.2.1 d.params r.1).1 d.body (bindAll (globalEnv P) r.2.1 d.params r.1).2
+        (initSelf (r.2.2.childAt site) d.selfShape))
+      (fun q => .ok (q.1, q.2.1, r.2.2.setCell site (.child (finishSelf q.2.2 d.selfShape q.1))))
 
 theorem eval_call (f : String) (args : List Expr) (site : Nat) : eval (n + 1) P rt env (.call f args site) σ st =
     andThen (evalList n P rt env args σ st) (callRest P rt n f site) := by
   rw [eval]
   cases evalList n P rt env args σ st with
   | error e => rfl
-  | ok r => obtain ⟨v, σ', st'⟩ := r; rfl
+  | ok r =>
+    obtain ⟨vs, σ', st'⟩ := r
+    simp only [andThen, callRest]
+    cases findFn P.fns f with
+    | none => rfl
+    | some d =>
+      simp only
+      split
+      · rfl
+      · simp only [initSelf, finishSelf]
+        cases eval n P rt (bindAll (globalEnv P) σ' d.params vs).1 d.body (bindAll (globalEnv P) σ' d.params vs).2 _ with
+        | error e => rfl
+        | ok q => obtain ⟨v, σ'', ch⟩ := q; rfl
 
 theorem eval_mem (a : Expr) (site : Nat) : eval (n + 1) P rt env (.mem a site) σ st =
     andThen (eval n P rt env a σ st) (fun r => match r with
